@@ -4,20 +4,23 @@ CONSTANTS
   NH = 1
   NM = 1
   Sess <- cSess
-  Den = 2
+  Den = 1
   P0 = 4
   Prices <- cPrices
-  Vols = {1, 2}
-  TTLs = {0, 1}
+  Vols = {1}
+  TTLs = {0}
   MaxOrders = 3
-  HaltRule <- cNoHalt
+  HaltRule <- cHalt
 INVARIANT Conservation
 INVARIANT BooksOk
-INVARIANT Lifetimes
 INVARIANT NoFillWithoutExec
 INVARIANT RunningFollowsSession
+INVARIANT HaltedStaysStopped
+INVARIANT ResumedOnTime
+INVARIANT SwitchFollowsHalts
+INVARIANT NeverRaisedInRun
+INVARIANT OnlyTargetsHalt
 INVARIANT LockStep
 INVARIANT HistLen
-INVARIANT RowsSane
 PROPERTY RoundFollows
 CHECK_DEADLOCK FALSE
